@@ -193,7 +193,7 @@ class Timeout(LiteXModule):
         timer = WaitTimer(cycles)
         self.submodules += timer
         self.comb += [
-            timer.wait.eq(master.stb & master.cyc & ~master.ack),
+            timer.wait.eq(master.stb & master.cyc & ~(master.ack | master.err)),
             If(timer.done,
                 master.dat_r.eq((2**len(master.dat_w))-1),
                 master.ack.eq(1),
